@@ -299,7 +299,7 @@ PROPS["C20"] = {
     },
 }
 
-ALL_DESIGNS = ["v1", "v2", "v3", "v4", "d1", "a1", "a2", "e1", "s1", "w1", "w2", "c1", "c2", "c3", "c4"]
+ALL_DESIGNS = ["v1", "v2", "v3", "v4", "d1", "a1", "a2", "e1", "s1", "w1", "w2", "p1", "c1", "c2", "c3", "c4", "c5"]
 
 PROPS["C01"] = {
     "level": "other",
@@ -309,13 +309,13 @@ PROPS["C01"] = {
     ],
     "compile_designs": ALL_DESIGNS,
     "bounds": {"scope": "4 (Unique) / 4 (HashedUnique over 3 hashes) calls with names from {a,b,a2}+optional digit 1-3, optional suffix", "goify": "every ASCII name of 0..3 bytes, both case modes",
-               "by_product": "13 catalogue designs generated by the real generator and compiled with go build (concrete, not a solver result)"},
+               "by_product": "18 catalogue designs generated by the real generator and compiled with go build (concrete, not a solver result)"},
     "assumptions": [],
     "outside": ["everything template-level for designs outside the catalogue: the property quantifies over all designs and the generator (text/template, go/format, imports) cannot be executed symbolically",
                 "the example generator's output (imports goa.design/clue, which is not in the offline module cache, so it cannot be type-checked here)", "non-ASCII attribute names"],
     "explanation": "Partial. Two kernels the property is anchored in are decided by symbolic execution + SMT: NameScope.Unique/HashedUnique never hand out one identifier twice (for every sequence of requests within the bound) and Goify returns a legal non-keyword identifier for every ASCII name up to 3 bytes. In addition, as a concrete by-product of the front end (not a solver result), every catalogue design is pushed through eval.RunDSL + generator.Generate and the generated gen/ packages are compiled; a design that is accepted but does not compile is a confirmed violation whose replay is the design itself.",
     "manifest": {
-        "text": "Partial. Solver-decided: uniqueness of generated identifiers for every bounded request sequence to the name scope; Goify output is a legal, non-reserved identifier for every ASCII name up to 3 bytes. Concrete by-product: the 13 catalogue designs are generated by the real generator and the emitted packages compiled with the Go compiler. The universal claim over designs is not decided.",
+        "text": "Partial. Solver-decided: uniqueness of generated identifiers for every bounded request sequence to the name scope; Goify output is a legal, non-reserved identifier for every ASCII name up to 3 bytes. Concrete by-product: the 18 catalogue designs are generated by the real generator and the emitted packages compiled with the Go compiler. The universal claim over designs is not decided.",
         "note": "Trusted: gosym executor, z3, the Go compiler for the by-product. Three genuine defects are listed in known_findings.json (attribute names shadowing generated locals, duplicate body type for recursive views, Goify of names starting with a digit).",
         "technique": "bounded symbolic execution + SMT for the identifier kernels; concrete generate-and-compile of the catalogue designs as a by-product",
     },
@@ -362,4 +362,23 @@ PROPS["C14"] = {
     "outside": ["responses against response schemas (not covered yet)", "validity of the document itself (C07)", "designs outside the catalogue"],
     "manifest": {"text": "Translation validation between two artefacts the real generator emits for each catalogue design: the parameter and request-body schemas of gen/http/openapi3.json (parsed at check time, evaluated as an SMT predicate over the symbolic wire request by the executor's JSON-schema evaluator) and the generated server (run symbolically as in C04). The solver decides schema(request) <=> server accepts(request) for all values within the bounds; natively every counterexample and witness is re-validated with kin-openapi against the generated server code.",
                  "note": 'Trusted: gosym executor and its JSON-schema evaluator (cross-checked natively by kin-openapi on every counterexample/witness), z3, the C04 wire model. Five genuine divergences are listed in known_findings.json.'},
+}
+
+PROPS["C10"] = {
+    "level": "translation_validation",
+    "prepare": g_prepare,
+    "jobs": [],
+    "designs": ["p1", "p2"],
+    "protoc_dir": "/verif/tools/fakeprotoc",
+    "proto_errors_are_violations": True,
+    "harness_tag": "c10",
+    "quick": r"^VerifC10_", "thorough": r"^VerifC10T?_",
+    "bounds": {"designs": {"p1": "unary method: string, optional sint32 (Minimum 1), sint64, bool, double, uint32, repeated string, nested message, map<string,sint32>, required metadata attribute; result with nested message",
+                           "p2": "OneOf with alias-typed alternatives (proto text only)"},
+               "values": "full-width symbolic numbers, strings up to 2 bytes, one attribute group at a time"},
+    "assumptions": ["protoc, protoc-gen-go and protoc-gen-go-grpc are not installed: /verif/tools/fakeprotoc/protoc turns goa's .proto into stand-in Go message structs with protoc-gen-go's field naming and the service client/server interfaces; protobuf marshalling of a message is the identity on those structs",
+                    "the gRPC wire delivers the client's outgoing metadata as the server's incoming metadata"],
+    "outside": ["well-formedness of the proto text beyond what the stand-in parser checks (positive unique field numbers and names per message, parsable fields/rpcs)", "streaming rpcs, oneof conversion code, response headers/trailers (the generator emits uncompilable code for them, see C01 finding c5)", "designs outside the catalogue"],
+    "manifest": {"text": "Partial. Translation validation of the generated gRPC conversion code on stand-in protobuf structs: a symbolic payload goes through the generated client encoder (message + metadata), the wire model, and the generated server handler (goa's UnaryHandler, DecodeXRequest, ValidateX, NewXPayload); the solver decides that user code runs iff the message satisfies the design (validation, required metadata) and that the payload received equals the payload sent, and likewise for results. By-product (concrete): the stand-in protoc refuses non-positive or duplicate field numbers/names in the emitted .proto.",
+                 "note": "Trusted: gosym executor, z3, the stand-in protoc (not the real protobuf toolchain). One genuine divergence (Int travels as sint32) is listed in known_findings.json."},
 }
